@@ -2,7 +2,9 @@
 
 1. TLC checks the theorems of spec/Pczt/PcztLattice.tla (Merge is commutative, idempotent, independent
    of every grouping and order of 2, 3 and 4 copies, monotone, and fails exactly when some component
-   has no upper bound) over several slot universes and over all 256 `tx_modifiable` bytes, and the
+   has no upper bound) over several slot universes and over all 256 `tx_modifiable` bytes, the theorems
+   of PcztGrowth.tla (a shielded bundle whose spend and output lists still grow: the result holds the
+   longer lists AND the value balance that belongs to them, or the combination is refused), and the
    invariants of PcztRoles.tla over all role orders.
 2. Spec -> code (R): TLC enumerates party assignments with the predicted outcome; c13_replay binds the
    abstract slots to every concrete field of real PCZTs (built with the real builder / Creator /
@@ -101,6 +103,75 @@ def model_check(ctx, d):
 
 
 # ------------------------------------------------------------------------------------------------
+# growing shielded bundles (PcztGrowth): two list lengths + the value balance that belongs to them
+
+GROW_PAIR = ["Idempotent", "Commutative", "KnownLub", "AllGroupings"]
+GROW_MULTI = ["Idempotent", "Commutative", "AllGroupings"]
+
+
+def write_grow_cfg(path, n, flags=(0, 128), ns=(0, 1, 2), no=(0, 1, 2), bsk=(0,), invariants=(), kind=None, lub=False):
+    with open(path, "w") as f:
+        f.write("SPECIFICATION Spec\nCONSTANTS\n  N = %d\n  FlagSet = %s\n  NsL = %s\n  NoL = %s\n  BskV = %s\n"
+                % (n, tla_set(flags), tla_set(ns), tla_set(no), tla_set(bsk)))
+        if kind is None:
+            f.write("  CheckLub = %s\n" % ("TRUE" if lub else "FALSE"))
+        else:
+            f.write('  Kind = "%s"\n  Stage = FALSE\n' % kind)
+        if invariants:
+            f.write("INVARIANTS %s\n" % " ".join(invariants))
+        f.write("CHECK_DEADLOCK FALSE\n")
+
+
+def grow_universe(kw):
+    return len(list(kw.get("flags", (0, 128)))) * len(list(kw.get("ns", (0, 1, 2)))) * len(list(kw.get("no", (0, 1, 2)))) \
+        * len(list(kw.get("bsk", (0,))))
+
+
+def growth_runs(quick):
+    """Model-checking runs of PcztGrowth; every universe from which growth cases are emitted
+    (growth_case_runs) is contained in one of them."""
+    runs = [
+        # pairs, two axes (Sapling) and one axis (Orchard / Ironwood), with the known-least-upper-bound theorem
+        ("g_pair", dict(n=2, bsk=(0, 1, 2), invariants=GROW_PAIR, lub=True)),
+        ("g_pair_o", dict(n=2, no=(0,), bsk=(0, 1, 2), invariants=GROW_PAIR, lub=True)),
+        # triples: 12 groupings
+        ("g_tri", dict(n=3, bsk=(0, 1) if quick else (0, 1, 2), invariants=GROW_MULTI)),
+        # four copies: 120 groupings
+        ("g_four", dict(n=4, flags=(128,), ns=(0, 1), no=(0, 1, 2), invariants=GROW_MULTI)),
+    ]
+    if not quick:
+        runs.append(("g_four_big", dict(n=4, ns=(0, 1), no=(0, 1), bsk=(0, 1), invariants=GROW_MULTI)))
+    return runs
+
+
+def model_check_growth(ctx, d):
+    for (name, kw) in growth_runs(ctx.quick()):
+        cfg = "MC_%s.cfg" % name
+        write_grow_cfg(os.path.join(d, cfg), **kw)
+        r = lib.tlc(ctx, d, "MC_PcztGrowth", cfg, workers=8, timeout=2400, coverage=False)
+        u = grow_universe(kw)
+        want = u + u ** kw["n"]            # the first copy alone, then every choice of all copies
+        if r.distinct != want:
+            raise lib.ToolError("vacuity: MC_PcztGrowth/%s explored %d states, expected %d" % (name, r.distinct, want))
+        lib.account_tlc(ctx, r)
+
+
+def growth_case_runs(quick):
+    runs = [
+        # pairs over everything, both sides of IO finalisation
+        ("growS2", dict(n=2, bsk=(0, 1, 2))),
+        # triples before IO finalisation (quick) / everywhere (thorough): 12 groupings + the n-ary fold each
+        ("growS", dict(n=3, bsk=(0,) if quick else (0, 1, 2))),
+        # one axis (Orchard / Ironwood actions)
+        ("growO", dict(n=3, no=(0,), bsk=(0, 1) if quick else (0, 1, 2))),
+    ]
+    if not quick:
+        runs.append(("growO2", dict(n=2, no=(0,), bsk=(0, 1, 2))))
+        runs.append(("growS4", dict(n=4, flags=(128,), ns=(0, 1), no=(0, 1, 2))))
+    return runs
+
+
+# ------------------------------------------------------------------------------------------------
 # spec -> code: case emission
 
 def case_runs(quick):
@@ -145,6 +216,23 @@ def emit_cases(ctx, d, path, only=None):
             for c in cases:
                 f.write(json.dumps(c) + "\n")
             total += len(cases)
+        for (kind, kw) in growth_case_runs(ctx.quick()):
+            if only and kind not in only:
+                continue
+            cfg = "Cases_%s.cfg" % kind
+            write_grow_cfg(os.path.join(d, cfg), kind=kind, **kw)
+            r = lib.tlc(ctx, d, "MC_PcztGrowthCases", cfg, workers=1, timeout=2400, coverage=False)
+            lib.account_tlc(ctx, r)
+            for t in r.prints("TREES"):
+                if t["n"] not in seen_n:
+                    seen_n.add(t["n"])
+                    f.write(json.dumps({"trees": t}) + "\n")
+            cases = r.prints("CASE")
+            if len(cases) != grow_universe(kw) ** kw["n"]:
+                raise lib.ToolError("vacuity: %d cases emitted for kind %s, expected %d" % (len(cases), kind, grow_universe(kw) ** kw["n"]))
+            for c in cases:
+                f.write(json.dumps(c) + "\n")
+            total += len(cases)
     return total
 
 
@@ -166,7 +254,8 @@ def model_check_roles(ctx, d):
 
 def stage(ctx):
     d = lib.stage_specs(ctx, AREA)
-    for m in ("PcztLattice", "MC_PcztLattice", "MC_PcztCases", "PcztFrames", "PcztRoles", "MC_PcztRoles", "Trace_PcztRoles"):
+    for m in ("PcztLattice", "MC_PcztLattice", "MC_PcztCases", "PcztGrowth", "MC_PcztGrowth", "MC_PcztGrowthCases", "PcztFrames", "PcztRoles",
+              "MC_PcztRoles", "Trace_PcztRoles"):
         lib.sany(os.path.join(d, m + ".tla"))
     return d
 
@@ -199,10 +288,35 @@ def run_merge(ctx, bindir, cases_path, tier, seed):
     return finish_bin(start_bin(bindir, ["merge", cases_path, tier], seed), "merge", 3000)
 
 
+def check_growth_vacuity(res):
+    """The growth kinds must have executed, on a base whose stages all have different value balances, at
+    least: one case in which a copy is longer on ONE axis only and the copies combine (the result's
+    value balance is then the longer copy's, whichever comes first), one case with copies grown on
+    different axes (refused), and one case whose outcome depends on the grouping (side growth)."""
+    g = res.get("grow") or {}
+    pk = res["per_kind"]
+    need = {"growS": pk.get("growS", 0), "growS2": pk.get("growS2", 0), "growO": pk.get("growO", 0), "cases": g.get("cases", 0),
+            "one_axis": g.get("one_axis", 0), "one_axis_pairs_joined": g.get("one_axis_pairs_joined", 0),
+            "incomparable": g.get("incomparable", 0), "order_dependent": g.get("order_dependent", 0),
+            "two-axis Sapling base with distinct balances": (g.get("per_base") or {}).get("s2s2/sapling", 0),
+            "Orchard base with distinct balances": sum(v for k, v in (g.get("per_base") or {}).items() if k.endswith("/orchard"))}
+    thin = [k for k, v in need.items() if v <= 0]
+    if thin:
+        raise lib.ToolError("vacuity: growth replay executed nothing for: %s (%s)" % (", ".join(thin), json.dumps(g)))
+
+
 def describe_case(m):
     if m["kind"] == "codec":
         return "base %s, slot %s, %s: %s" % (m["base"], m["detail"].get("slot"), m["detail"].get("memo"), m["detail"].get("what"))
     ps = m["case"]["ps"]
+    if m["kind"] == "grow":
+        c = m["case"]
+        return ("growing %s bundle of base %s, copies [flags, spends, outputs, value balance of (spends, outputs), bsk] %s; predicted: %s; %s"
+                % (m["binding"].get("pool"), m["base"], json.dumps([[p["flags"], p["ns"], p["no"], p["vs"], p["bsk"]] for p in ps]),
+                   ("%s %s%s" % ("every grouping gives" if not c["bad"] else "the groupings not refused give",
+                                   json.dumps([c["v"]["flags"], c["v"]["ns"], c["v"]["no"], c["v"]["vs"], c["v"]["bsk"]]),
+                                                 "" if not c["bad"] else "; refused groupings (postfix): %s" % json.dumps(c["bad"])[:300]))
+                   if c["any"] else "every grouping is refused", json.dumps(m["detail"])[:900]))
 
     def party(p):
         out = {}
@@ -223,6 +337,7 @@ def report_merge(ctx, mismatches, cap=3):
         lib.violation(ctx, {"property": "C13", "kind": m["kind"], "base": m["base"], "case": m["case"], "binding": m["binding"],
                             "idx": m["idx"], "trees": m["trees"], "seed": m["seed"], "tier": m["tier"], "detail": m["detail"]},
                       ("Pczt::parse / serialize break the encoding's acceptance boundary: " if m["kind"] == "codec"
+                       else "Combiner::combine disagrees with PcztGrowth.Merge: " if m["kind"] == "grow"
                        else "Combiner::combine disagrees with PcztLattice.Merge: ") + describe_case(m))
 
 
@@ -342,6 +457,7 @@ def run(ctx):
     try:
         # (1) the specifications alone
         model_check(ctx, d)
+        model_check_growth(ctx, d)
         model_check_roles(ctx, d)
     except BaseException:
         merge_proc.kill()
@@ -357,6 +473,12 @@ def run(ctx):
     if res["cases"] < ncases or res["role_cases"] < 500 or res["joins_predicted"] < 1000 or res["conflicts_predicted"] < 1000 \
             or res["v2_results"] < 50 or res["v1_results"] < 50:
         raise lib.ToolError("vacuity: merge replay too thin: %s" % json.dumps({k: v for k, v in res.items() if isinstance(v, int)}))
+    check_growth_vacuity(res)
+    g = res["grow"]
+    lib.log("growth: %d cases on %s; %d with a copy longer on one axis only (%d two-copy joins), %d with copies grown on different axes, "
+            "%d order-dependent (%d refused groupings next to a successful one), %d across IO finalisation"
+            % (g["cases"] + g["cases_on_bases_with_shared_balances"], ", ".join(sorted(g["per_base"])), g["one_axis"], g["one_axis_pairs_joined"],
+               g["incomparable"], g["order_dependent"], g["refused_groupings"], g["cross_stage"]))
     lib.log("merge: %d cases (%d with parties made by real roles), %d combines, %d predicted joins / %d conflicts, %d slot classes, %d mismatches"
             % (res["cases"], res["role_cases"], res["combines"], res["joins_predicted"], res["conflicts_predicted"],
                res["slot_classes"], len(res["mismatches"])))
@@ -406,6 +528,9 @@ def run(ctx):
         rule="R: every TLC-enumerated party assignment (kinds opt1/opt2/eq1/lock/flags2/flags3/listsT/listsO/four) is bound to "
              "concrete slots of real PCZTs and executed with Combiner::combine under every grouping and order of the parties "
              "(2 / 12 / 120 trees + the n-ary fold); verdict and serialised result compared byte-for-byte with the predicted join. "
+             "Kinds growS/growS2/growO (PcztGrowth): copies of a not yet IO-finalised Sapling (spends x outputs) / Orchard / Ironwood "
+             "bundle cut to every pair of prefix lengths, each with the value balance of the items it holds; the prediction is per "
+             "grouping (refused, or the longer lists with THEIR value balance). "
              "V: every logged role application is validated by TLC against Trace_PcztRoles. traces_validated = merge cases + "
              "accepted trace records; distinct_nontrivial = distinct predicted join results + distinct (role, write set) pairs",
         evaluations=res["combines"] + len(recs),
@@ -417,7 +542,12 @@ def run(ctx):
             "parties with arbitrary slot contents are made with the own encoder and Pczt::parse; parties made by real roles cover "
             "the slots the Updater / Signer / Redactor can write",
             "merge laws are claimed for copies within one stage (PcztLattice!SameStage); outside, the pinned merge is not a join "
-            "(TLC-checked witness NonAssocWitness) and is not judged; Sapling spend/output lists of different lengths are not modelled",
+            "(TLC-checked witness NonAssocWitness); likewise copies that grew on different axes of a Sapling bundle are refused pairwise "
+            "but absorbed by a third copy holding both (TLC-checked witness SideGrowthWitness), so an outcome can depend on the "
+            "grouping: there the real Combiner is compared with the specification's prediction grouping by grouping, and the "
+            "order-independence law is claimed only for chains of copies within one stage",
+            "growing bundles: copies are prefixes of one real bundle's lists made with the own encoder (the public API has no "
+            "Constructor role); equal-length copies with different value_sum and no bsk (not one transaction) are not exercised",
             "a Sapling anchor that is absent and the all-zero anchor of a bundle without spends are one value (v1 has no absent anchor)",
             "Redactor preconditions respected by the driver: note fields are not cleared while an action is in compact form; "
             "`rho` is not cleared before `rseed`; anchors are cleared only in v6 PCZTs",
@@ -435,7 +565,7 @@ def replay(ctx, path):
     with open(path) as f:
         rep = json.load(f)
     kind = rep.get("kind")
-    if kind in ("merge", "merge_roles", "codec"):
+    if kind in ("merge", "merge_roles", "codec", "grow"):
         p = lib.run_bin(os.path.join(bindir, "c13_replay"), ["rerun", path], timeout=600)
         out = json.loads(p.stdout.strip().splitlines()[-1])
         if out["mismatch"]:
@@ -548,7 +678,7 @@ def selftest(ctx):
 
     # R: perturbed predictions
     cases_path = ctx.path("cases.ndjson")
-    emit_cases(ctx, d, cases_path, only=("opt1", "flags3"))
+    emit_cases(ctx, d, cases_path, only=("opt1", "flags3", "growS2", "growS"))
     lines = [json.loads(x) for x in open(cases_path) if x.strip()]
     trees = [x for x in lines if "trees" in x]
     cases = [x for x in lines if "trees" not in x]
@@ -574,4 +704,55 @@ def selftest(ctx):
               and any(p["flags"] & 1 for p in x["ps"]), lambda c: c["out"]["v"].__setitem__("flags", c["out"]["v"]["flags"] | 1))
     perturbed("reserved flag bit accepted", lambda x: x["k"] == "flags3" and not x["out"]["ok"] and all(p["flags"] in (0, 8) for p in x["ps"]),
               lambda c: c.__setitem__("out", {"ok": True, "v": dict(c["ps"][0], flags=0)}))
-    lib.log("selftest ok: %d trace corruptions rejected, %d perturbed predictions reported" % (_expect_reject.n, perturbed.n))
+    # growing bundles (PcztGrowth): copies are [flags, spends, outputs, bsk]
+    shape = lambda p: (p["flags"], p["ns"], p["no"], p["bsk"])
+    grow2 = lambda a, b: (lambda x: x["k"] == "growS2" and shape(x["ps"][0]) == a and shape(x["ps"][1]) == b)
+
+    def as_join(v):
+        return lambda c: c.update({"any": True, "bad": [], "v": v, "out": {"ok": True, "v": v}})
+    # the second copy has one more output: the result must carry the longer copy's value balance
+    perturbed("result predicted with the shorter copy's value balance", grow2((128, 1, 1, 0), (128, 1, 2, 0)),
+              lambda c: (c["v"].__setitem__("vs", [1, 1]), c["out"]["v"].__setitem__("vs", [1, 1])))
+    perturbed("result predicted with the shorter list", grow2((128, 1, 1, 0), (128, 1, 2, 0)),
+              lambda c: (c["v"].update({"no": 1, "vs": [1, 1]}), c["out"]["v"].update({"no": 1, "vs": [1, 1]})))
+    perturbed("copies grown on different axes predicted to combine", grow2((128, 1, 1, 0), (128, 0, 2, 0)),
+              as_join({"flags": 128, "ns": 1, "no": 2, "vs": [1, 2], "bsk": 0}))
+    perturbed("growth of a copy that is no longer modifiable predicted to combine", grow2((0, 1, 1, 0), (128, 1, 2, 0)),
+              as_join({"flags": 0, "ns": 1, "no": 2, "vs": [1, 2], "bsk": 0}))
+    perturbed("growth after IO finalisation predicted to combine", grow2((128, 1, 1, 0), (0, 1, 2, 1)),
+              as_join({"flags": 0, "ns": 1, "no": 2, "vs": [1, 2], "bsk": 1}))
+    perturbed("a mergeable pair predicted as conflict", grow2((128, 0, 1, 0), (128, 1, 1, 0)),
+              lambda c: c.update({"any": False, "bad": [[1, 2, 0], [2, 1, 0]], "out": {"ok": False, "v": c["v"]}}))
+    perturbed("a refused grouping predicted to succeed", lambda x: x["k"] == "growS" and x["any"] and x["bad"], lambda c: c["bad"].pop())
+    perturbed("a successful grouping predicted to be refused", lambda x: x["k"] == "growS" and x["any"] and x["bad"],
+              lambda c: c["bad"].extend([t for t in next(x for x in trees if x["trees"]["n"] == 3)["trees"]["trees"] if t not in c["bad"]]))
+    # the theorems of PcztGrowth bind: a specification whose Merge is wrong in the way the code could be is refuted by TLC
+    import shutil
+
+    def spec_mutation(what, old, new):
+        md = ctx.path("spec_mut_%d" % spec_mutation.n)
+        spec_mutation.n += 1
+        shutil.copytree(d, md)
+        src = open(os.path.join(md, "PcztGrowth.tla")).read()
+        if src.count(old) != 1:
+            raise lib.ToolError("selftest: cannot mutate PcztGrowth.tla (%s)" % what)
+        with open(os.path.join(md, "PcztGrowth.tla"), "w") as f:
+            f.write(src.replace(old, new))
+        # without the two checked witnesses, so that it is the theorems that have to refute it
+        mc = open(os.path.join(md, "MC_PcztGrowth.tla")).read()
+        if mc.count("ASSUME SideGrowthWitness\nASSUME StageWitness\n") != 1:
+            raise lib.ToolError("selftest: witnesses of MC_PcztGrowth.tla not found")
+        with open(os.path.join(md, "MC_PcztGrowth.tla"), "w") as f:
+            f.write(mc.replace("ASSUME SideGrowthWitness\nASSUME StageWitness\n", ""))
+        write_grow_cfg(os.path.join(md, "MC_mut.cfg"), n=3, bsk=(0,), invariants=GROW_MULTI)
+        r = lib.tlc(ctx, md, "MC_PcztGrowth", "MC_mut.cfg", workers=4, timeout=600, coverage=False, expect_ok=False)
+        by = ("invariant " + r.invariant) if r.invariant else None
+        if r.ok or not by:
+            raise lib.ToolError("selftest: a wrong Merge is not refuted by the theorems of PcztGrowth (%s)" % what)
+        lib.log("selftest ok: %s -> refuted by TLC: %s" % (what, by))
+    spec_mutation.n = 0
+    spec_mutation("Merge keeps the left copy's value balance", "vs    |-> IF Dominates(a, b) THEN a.vs ELSE b.vs,", "vs    |-> a.vs,")
+    spec_mutation("Merge combines copies grown on different axes", "ELSE /\\ Dominates(a, b) \\/ Dominates(b, a)\n", "ELSE /\\ TRUE\n")
+    spec_mutation("Merge lets a copy that is not modifiable grow", "            /\\ Shorter(a, b) => Mod(a)\n", "")
+    lib.log("selftest ok: %d trace corruptions rejected, %d perturbed predictions reported, %d wrong specifications refuted"
+            % (_expect_reject.n, perturbed.n, spec_mutation.n))
